@@ -11,6 +11,25 @@ for s in $seeds; do
   if python3 -c "import json,sys;sys.exit(0 if json.load(open('$d/meta.json')).get('neutralised') else 1)"; then continue; fi
   prop=$(python3 -c "import json;print(json.load(open('$d/meta.json'))['property'])")
   only=$(grep -h "seed=\(seed_\)\?$s " /verif/out/seed_round*.txt 2>/dev/null | grep -o 'caught_by=.*' | sed 's/caught_by=//' | tr ',' '\n' | sed 's/:.*//' | grep . | sort -u | tr '\n' ',' | sed 's/,$//')
+  if [ "${SEED_IN_WORKTREE:-0}" = 1 ]; then
+    # /repo is busy: run against a patched scratch worktree (SYMGO_REPO) instead of touching /repo
+    wt=/tmp/wtr_$$
+    git -C /repo worktree add -q --detach $wt HEAD || continue
+    if git -C $wt apply $d/patch.diff 2>/dev/null; then
+      if [ -n "$only" ]; then
+        SYMGO_REPO=$wt /verif/bin/symgo check -p $prop -tier quick -no-evidence -workers ${SEED_WORKERS:-6} -only "$only" > /tmp/seedreg_$$.log 2>&1
+      else
+        SYMGO_REPO=$wt /verif/bin/symgo check -p $prop -tier quick -no-evidence -workers ${SEED_WORKERS:-6} > /tmp/seedreg_$$.log 2>&1
+      fi
+      code=$?
+      echo "seed=$s prop=$prop clean_demo=(confirmed-earlier) mutant_demo=(confirmed-earlier) suite=(confirmed-earlier) check_exit=$code caught_by=$(grep -A1 '^VIOLATION' /tmp/seedreg_$$.log | grep harness= | sed 's/.*harness=\([^ ]*\) label=\([^ ]*\).*/\1:\2/' | sort -u | tr '\n' ',') only=$only mode=worktree" >> $out
+      cp /tmp/seedreg_$$.log /verif/out/seedcheck_${s}_quick.log; rm -f /tmp/seedreg_$$.log
+    else
+      echo "seed=$s prop=$prop clean_demo=(confirmed-earlier) mutant_demo=(confirmed-earlier) suite=(confirmed-earlier) repo_apply=FAILED" >> $out
+    fi
+    git -C /repo worktree remove --force $wt
+    continue
+  fi
   if ! git -C /repo apply --check $d/patch.diff 2>/dev/null; then
     echo "seed=$s prop=$prop clean_demo=(confirmed-earlier) mutant_demo=(confirmed-earlier) suite=(confirmed-earlier) repo_apply=FAILED" >> $out; continue
   fi
